@@ -6,6 +6,7 @@ from ..lib import call
 
 PROP = "C04"
 PLAN = {"quick": (2400, 200), "thorough": (120000, 3000)}
+LARGE = (0.04, 64)  # (share, largest size) of the large class of gen.kv: 17+ control points, degree up to 8
 RULE = ("case = (curve, multiset of nodes, class); classes: single new node, node equal to an existing knot of "
         "multiplicity 1..p, repeated nodes, several unsorted nodes, node 0 on intervals where 0 is interior, and invalid "
         "requests (multiplicity above p+1 incl. end knots, outside, non-number); polynomial and rational, scalar and "
@@ -51,7 +52,9 @@ def gen_case(rng, idx, tier):
         v = newval()
         nodes, cls = [v] * rng.randint(2, p + 1) if p >= 1 else [v], "repeated"
     elif r < 0.75:
-        nodes = [newval() for _ in range(rng.randint(2, 4))]
+        # 2-4 nodes, or (one time in five) 13-30 nodes in one call
+        nodes = [newval() for _ in range(rng.randint(2, 4) if rng.random() < 0.8 else rng.randint(13, 30))]
+        nodes = [v for v in nodes if nodes.count(v) <= p + 1]
         if len(ks) > 2 and rng.random() < 0.5:
             k = rng.choice(ks[1:-1])
             if ref.mult(U, k) + nodes.count(k) < p + 1:
